@@ -30,11 +30,16 @@ Definition json_errors (k : kind) : bool :=
 Inductive lres := LOk | LNotLeader | LErr.     (* the local store: served / store.ErrNotLeader / another error *)
 Inductive ares := AKnown | AEmpty | AErr.      (* store.LeaderAddr(): address / "" / error *)
 
+(* the forwarded-to node's own store: success, an error (its text travels back in the response:
+   "not leader" from a node that has just lost leadership, "leader not found", "stale read",
+   "store not ready", an execution error ...), or an error whose text is literally "unauthorized" *)
+Inductive dbres := DOk | DErr | DErrUnauthorizedText.
+
 Record env := {
   f_local : lres;
   f_addr : ares;
   l_store : option cstore;    (* the leader's credential store *)
-  l_db_ok : bool;             (* the leader's database/manager call succeeds *)
+  l_db : dbres;               (* what the leader's store / manager answers to the forwarded call *)
   l_api_known : bool          (* GetNodeMeta(leader) gives an API URL (needed for a redirect only) *)
 }.
 
@@ -65,7 +70,13 @@ Definition remote (k : kind) (e : env) (u p : string) : pres * list (string * st
              | OFrame "unauthorized" :: _ => PUnauthorized       (* wrapIfUnauthorized *)
              | _ => PRemoteErr
              end, [])
-    | cs => (if l_db_ok e then PRemote else PRemoteErr, map (fun c => (c, u, p)) cs)
+    | cs => (match l_db e, k with
+             | DOk, _ => PRemote
+             | DErr, _ => PRemoteErr
+             | DErrUnauthorizedText, KBackup => PRemoteErr   (* a backup stream cannot carry an error text *)
+             | DErrUnauthorizedText, KLoad => PRemoteErr     (* the service prefixes load errors: "remote node failed to load: ..." *)
+             | DErrUnauthorizedText, _ => PUnauthorized      (* wrapIfUnauthorized goes by the text alone *)
+             end, map (fun c => (c, u, p)) cs)
     end
   end.
 
@@ -87,28 +98,42 @@ Definition proxy (k : kind) (e : env) (noForward : bool) (u p : string) : pres *
 
 (* what the client of the HTTP API sees *)
 Inductive served := SNobody | SFollower | SLeader.
+(* what the body of the response is *)
+Inductive body :=
+| BEmpty          (* no body at all *)
+| BResults        (* results / backup bytes *)
+| BRemoteError    (* the error text the forwarded-to node answered with *)
+| BOther          (* something else (an empty result list, another message) *)
+| BAny.           (* model: not specified (redirect pages, local error messages) *)
+
 Record http_obs := {
+  h_body : body;
   h_status : N;
   h_results : served;     (* whose results / backup bytes are in the body *)
   h_index : served;       (* whose raft index is in the body *)
   h_served_by : served    (* X-RQLITE-SERVED-BY *)
 }.
 
+(* The handlers: ErrNotLeader from the proxy means "the client asked for a redirect" — DoRedirect
+   writes the 301 only then; every other proxy error becomes an error response carrying the error's
+   text (JSON body with status 200 for execute/query/request, status 500 otherwise). *)
 Definition respond (k : kind) (e : env) (r : pres) : http_obs :=
-  let nothing st := {| h_status := st; h_results := SNobody; h_index := SNobody; h_served_by := SNobody |} in
+  let nothing st b := {| h_body := b; h_status := st; h_results := SNobody; h_index := SNobody; h_served_by := SNobody |} in
   let res who := if has_results k then who else SNobody in
   let idx who := if json_errors k then who else SNobody in
-  let err := nothing (if json_errors k then 200 else 500)%N in
+  let errst := (if json_errors k then 200 else 500)%N in
   (* handleBackup sets the served-by header after the body has been streamed: it never reaches the client *)
   let hdr who := match k with KBackup => SNobody | _ => who end in
+  let okbody := match k with KRemove | KStepdown => BEmpty | KLoad => BOther | _ => BResults end in
   match r with
-  | PLocal => {| h_status := 200; h_results := res SFollower; h_index := idx SFollower; h_served_by := hdr SFollower |}
-  | PRemote => {| h_status := 200; h_results := res SLeader; h_index := idx SLeader; h_served_by := hdr SLeader |}
-  | PNotLeader => nothing (if l_api_known e then 301 else 500)%N     (* DoRedirect / FormRedirect *)
-  | PLeaderNotFound => nothing 503%N
-  | PUnauthorized => nothing 401%N
-  | PLocalErr | PRemoteErr | PAddrErr => err
-  | PNoTerm => nothing 0%N
+  | PLocal => {| h_body := okbody; h_status := 200; h_results := res SFollower; h_index := idx SFollower; h_served_by := hdr SFollower |}
+  | PRemote => {| h_body := okbody; h_status := 200; h_results := res SLeader; h_index := idx SLeader; h_served_by := hdr SLeader |}
+  | PNotLeader => nothing (if l_api_known e then 301 else 500)%N BAny     (* DoRedirect / FormRedirect *)
+  | PLeaderNotFound => nothing 503%N BAny
+  | PUnauthorized => nothing 401%N BAny
+  | PRemoteErr => nothing errst (match k with KBackup => BAny | _ => BRemoteError end)
+  | PLocalErr | PAddrErr => nothing errst BAny
+  | PNoTerm => nothing 0%N BAny
   end.
 
 Definition serve (k : kind) (e : env) (redirect : bool) (u p : string) : http_obs * trace :=
@@ -118,6 +143,12 @@ Definition serve (k : kind) (e : env) (redirect : bool) (u p : string) : http_ob
 
 Definition served_eqb (a b : served) : bool :=
   match a, b with SNobody, SNobody | SFollower, SFollower | SLeader, SLeader => true | _, _ => false end.
+Definition body_match (m o : body) : bool :=
+  match m, o with
+  | BAny, _ => true
+  | BEmpty, BEmpty | BResults, BResults | BRemoteError, BRemoteError | BOther, BOther => true
+  | _, _ => false
+  end.
 Definition call_eqb (a b : string * string * string) : bool :=
   let '(c1, u1, p1) := a in let '(c2, u2, p2) := b in
   String.eqb c1 c2 && String.eqb u1 u2 && String.eqb p1 p2.
@@ -188,7 +219,7 @@ Record one_case := {
   c_kind : kind;
   c_local : lres; c_addr : ares;
   c_leader_file : option (list cred);
-  c_db_ok : bool; c_api_known : bool;
+  c_db : dbres; c_api_known : bool;
   c_redirect : bool;
   c_user : string; c_pass : string;
   c_obs : http_obs;
@@ -198,11 +229,12 @@ Record one_case := {
 
 Definition case_env (c : one_case) : env :=
   {| f_local := c_local c; f_addr := c_addr c; l_store := option_map load (c_leader_file c);
-     l_db_ok := c_db_ok c; l_api_known := c_api_known c |}.
+     l_db := c_db c; l_api_known := c_api_known c |}.
 
 Definition check_one (c : one_case) : bool :=
   let '(o, t) := serve (c_kind c) (case_env c) (c_redirect c) (c_user c) (c_pass c) in
-  N.eqb (h_status o) (h_status (c_obs c))
+  body_match (h_body o) (h_body (c_obs c))
+  && N.eqb (h_status o) (h_status (c_obs c))
   && served_eqb (h_results o) (h_results (c_obs c))
   && served_eqb (h_index o) (h_index (c_obs c))
   && served_eqb (h_served_by o) (h_served_by (c_obs c))
